@@ -59,7 +59,7 @@ func (c *recChan) snapshot() []event.Event {
 // waitFor waits until pred holds on the recorded events (events may be sent by a goroutine
 // of the service slightly after the reply was written)
 func (c *recChan) waitFor(pred func([]event.Event) bool) []event.Event {
-	deadline := time.Now().Add(2 * time.Second)
+	deadline := time.Now().Add(5 * time.Second)
 	for {
 		evs := c.snapshot()
 		if pred(evs) || time.Now().After(deadline) {
